@@ -39,7 +39,9 @@ func spec_sumText(keys []string, data map[string]string, n int) string {
 //@   ensures eq(spec_calls(), old(spec_calls())) && spec_callMark() == old(spec_callMark())
 //@   ensures len(spec_fx()) >= len(old(spec_fx())) && len(spec_fx()) <= len(old(spec_fx()))+2 && eq(spec_fx()[:len(old(spec_fx()))], old(spec_fx()))
 //@   ensures forall i int :: len(old(spec_fx())) <= i && i < len(spec_fx()) ==> spec_fx()[i].Path == filepath.Join(f.Dir, sumFilename)
-//@   note gengo.sum is the only file Save touches: <Dir>/gengo.sum (created/truncated, then written)
+//@   ensures forall i int :: len(old(spec_fx())) <= i && i < len(spec_fx()) ==> spec_fx()[i].Kind == spec_Open || spec_fx()[i].Kind == spec_Write
+//@   ensures len(spec_fx()) > len(old(spec_fx())) ==> spec_fx()[len(old(spec_fx()))].Kind == spec_Open
+//@   note gengo.sum is the only file Save touches: <Dir>/gengo.sum, TRUNCATED on open (no stale tail of a longer previous file survives), then written
 
 //@ func Load
 //@   props C08
@@ -120,7 +122,7 @@ func spec_sortedKeys[V any](m map[string]V) []string {
 
 // spec_Effect: one file-system effect of a run (the only modelled ways bytes on disk change).
 type spec_Effect struct {
-	Kind int // spec_Open: file created or truncated; spec_Write: bytes written to an open file; spec_Remove; spec_SaveSum: gengo.sum rewritten
+	Kind int // spec_Open: file created or truncated; spec_Write: bytes written to an open file; spec_Remove; spec_SaveSum: gengo.sum rewritten; spec_OpenKeep: opened for writing WITHOUT truncation
 	Path string
 }
 
@@ -129,6 +131,7 @@ const (
 	spec_Write   = 2
 	spec_Remove  = 3
 	spec_SaveSum = 4
+	spec_OpenKeep = 5
 )
 
 // spec_fx(): the effect log so far, in order (ghost).
